@@ -16,7 +16,7 @@ from sim.core import sub_rng
 
 PROP = "C15"
 LEVEL = "exploration"
-TIERS = {"quick": dict(runs=30000, chunk=500), "thorough": dict(budget_s=480, max_runs=5_000_000, chunk=2000)}
+TIERS = {"quick": dict(runs=30000, chunk=500), "thorough": dict(budget_s=480, max_runs=5_000_000, chunk=500)}
 RULE = ("one case = matrix dims (n,m)<=5 and a program of <=12 operations on a pool of <=6 DyadCarriers (construction from "
         "vector lists / blocks / symmetric / empty shaped / unshaped, + - neg pos, += -= (also with itself), add_dyad, scalar and "
         "matrix products from both sides, @/dot with vectors, T, conj, real, imag, diagonal(k), element/row/column/slice/"
@@ -50,7 +50,7 @@ BINARY = ["add", "sub", "iadd", "isub"]
 
 
 def gen(rng, idx, tier):
-    n, m = int(rng.integers(1, 6)), int(rng.integers(1, 6))
+    n, m = int(rng.integers(1, 9 if tier == "thorough" else 6)), int(rng.integers(1, 9 if tier == "thorough" else 6))
     if rng.random() < 0.3:
         m = n
     ops = []
@@ -61,7 +61,7 @@ def gen(rng, idx, tier):
     nnew = int(rng.integers(1, 4))
     for i in range(nnew):
         ops.append(_new(rng, pc, pe))
-    for _ in range(int(rng.integers(1, 12))):
+    for _ in range(int(rng.integers(1, 30 if tier == "thorough" else 12))):
         r = rng.random()
         if r < 0.12:
             ops.append(_new(rng, pc, pe))
